@@ -39,6 +39,8 @@ pub struct World {
     pub samples: Vec<Value>,
     /// secret scalars recovered from library outputs, by group ("sm2" / "sm9"); C14 statistics
     pub observed: Vec<(String, Vec<u8>)>,
+    /// this world is one caller of a `par` op whose parent world had already reported a violation
+    pub pre_violated: bool,
     /// the world consumed real randomness (C14-M3): excluded from the run digest
     pub nondeterministic: bool,
 }
@@ -90,6 +92,7 @@ impl World {
             objs: crate::objs::Objs::default(),
             samples: vec![],
             observed: vec![],
+            pre_violated: false,
             nondeterministic: false,
         }
     }
@@ -243,7 +246,7 @@ impl World {
                 // An op whose input slot was never produced because an EARLIER op already failed an
                 // oracle (e.g. sign ended in hang, so there is no signature to verify) is skipped;
                 // anything else that cannot be executed is a malformed schedule (harness error).
-                if e.ends_with("undefined") && !self.violations.is_empty() {
+                if e.ends_with("undefined") && (!self.violations.is_empty() || self.pre_violated) {
                     self.note(format!("  SKIPPED {e}"));
                     self.bump("harness.skipped-after-violation");
                     self.last = Value::Null;
@@ -307,7 +310,9 @@ impl World {
         let b = op.get("b").cloned().ok_or("par: field 'b' missing")?;
         let order: Vec<u8> = gs(op, "order")?.bytes().map(|c| if c == b'A' { 0 } else { 1 }).collect();
         let gate = crate::simrng::Gate::new(&order);
-        let (wa, wb) = (self.fork(), self.fork());
+        let (mut wa, mut wb) = (self.fork(), self.fork());
+        wa.pre_violated = !self.violations.is_empty() || self.pre_violated;
+        wb.pre_violated = wa.pre_violated;
         let run = |mut w: World, o: Value, me: u8, g: std::sync::Arc<crate::simrng::Gate>| {
             std::thread::Builder::new()
                 .stack_size(64 << 20)
@@ -317,6 +322,8 @@ impl World {
                     let r = std::panic::catch_unwind(std::panic::AssertUnwindSafe(|| w.exec(o)));
                     crate::simrng::gate_clear();
                     g.finish(me);
+                    let pts = crate::simrng::SCHED_POINTS.with(|c| c.get());
+                    w.bump_by("probe.par.sync-primitive-points", pts);
                     match r {
                         Ok(r) => (w, r),
                         Err(_) => {
@@ -368,6 +375,7 @@ impl World {
         }
         self.bump("history.concurrent-callers");
         self.bump_by("probe.par.thread-switches", gate.switches() as u64);
+        self.bump_by("probe.par.forced-handover", gate.forced() as u64);
         Ok(json!({"a": ra, "b": rb, "switches": gate.switches()}))
     }
 
